@@ -1,5 +1,9 @@
 mod connection;
 mod request;
+#[cfg(aquatic_verif)]
+pub mod verif_request {
+    pub use super::request::*;
+}
 
 use std::cell::RefCell;
 use std::net::SocketAddr;
